@@ -406,6 +406,16 @@ def jobs(tier):
     for c in (comps[::4] if q else comps[::2]):
         out.append(('chains', 'case_chains', dict(
             units=c, n_ids=2, n_chains=2, n_draws=2 if q else 3), F))
+    # individual labels that are not in lexicographic order
+    U = hier.unit
+    for c, n_ids, labels in (
+            ([U('gaussian'), U('pooled')], 3, ['pat-C', 'pat-A', 'pat-B']),
+            ([U('lognormal_nc'), U('hetero')], 2, ['b', 'a']),
+            ([U('hetero', 2)], 3, ['10', '9', '1']),
+            ([U('gaussian'), U('pooled')], 11, None)):
+        out.append(('chains', 'case_chains', dict(
+            units=c, n_ids=n_ids, n_chains=1 if n_ids > 3 else 2, n_draws=2,
+            id_labels=labels), F))
     return out
 
 
@@ -415,7 +425,8 @@ BOUNDS = dict(
           'the covariate variants, fixed-parameter samples; filter posteriors '
           'on every second composition; 2 initial points; chains with 2 '
           'chains x 2 draws for an individual posterior and a quarter of the '
-          'hierarchical compositions',
+          'hierarchical compositions, plus 3 posteriors with unsorted custom '
+          'individual labels and one with 11 default-labelled individuals',
     thorough='a third of the compositions of <= 3 sub-models with dimension '
              '2-3, 1-3 individuals, all covariate variants, 3 draws',
     outside='the optimisation result table (needs a pints optimiser run on '
